@@ -448,6 +448,14 @@ func (fs *propSet) buildValue(prop *property, create bool) (Field, bool, error) 
 	if err != nil {
 		return nil, false, err
 	}
+
+	if oneof, ok := built.(*oneofField); ok && !create && !j5schema.IsOneofWrapper(finalField.Message()) {
+		// An exposed oneof of a flattened child is addressed through the
+		// child's field: the child being present does not mean the oneof is.
+		if !oneof.IsSet() {
+			return nil, false, nil
+		}
+	}
 	prop.value = built
 
 	prop.hasValue = true
